@@ -2,6 +2,7 @@
 import ast
 
 from ..core import astutil as A
+from ..core import match as M
 from ..core import rx as RX
 from ..core.model import dotted
 
@@ -13,14 +14,25 @@ META = {
 MOD = "pkgcore.ebuild.filter_env"
 
 
-def template(fn, name, before_line):
-    """Possible string templates of local `name` (JoinedStr composition; `J` = '|'.join(tokens), `T` = a raw token)."""
-    outs = []
-    for t, v, st in A.assignments(fn.node, name):
-        if st.lineno >= before_line:
-            continue
-        outs.append((st, v))
-    return outs
+def inert(st):
+    """A statement without effect on the scan: `pass`, a bare constant, a logging / warning call."""
+    if isinstance(st, ast.Pass):
+        return True
+    if isinstance(st, ast.Expr):
+        if isinstance(st.value, ast.Constant):
+            return True
+        if isinstance(st.value, ast.Call) and (dotted(st.value.func) or "").startswith(("logger.", "logging.", "warnings.")):
+            return True
+    return False
+
+
+def eff(stmts):
+    """The effective statements of a body (inert ones dropped)."""
+    return [st for st in stmts if not inert(st)]
+
+
+def is_stmt(st, pattern, env=None):
+    return st is not None and M.pat(pattern).matches(st, env) is not None
 
 
 def render(fn, e, depth=0):
@@ -77,25 +89,26 @@ def run(ctx):
                   f"build_regex_string compiles {show(f)}: the anchors bind to the first/last alternative only, so with re.match the first pattern is a PREFIX match (T_A also hits T_AB){' — a single token can carry its own alternation' if chr(2) in f else ''}", node=comp[0])
     ctx.check("R1", br, any(f.startswith("(?!") for f in forms) and any(not f.startswith("(?!") for f in forms), f"whitelist-form:{len(forms)}", "whitelist mode wraps the anchored form in a negative lookahead")
     mr = P.func(MOD, "main_run")
-    t = A.unparse(mr.node)
-    ctx.check("R1", mr, "build_regex_string(vars_to_filter, invert=vars_is_whitelist).match" in t and "build_regex_string(funcs_to_filter, invert=funcs_is_whitelist).match" in t, "applied-with-match", "patterns are applied with .match, whitelist flags routed to invert")
-    ctx.check("R1", mr, "data = data + '\\x00'" in t, "sentinel-appended", "the dump is terminated by the NUL sentinel the scanners rely on")
+    ctx.check("R1", mr, M.has(mr.node, "build_regex_string(vars_to_filter, invert=vars_is_whitelist).match") and M.has(mr.node, "build_regex_string(funcs_to_filter, invert=funcs_is_whitelist).match"), "applied-with-match", "patterns are applied with .match, whitelist flags routed to invert")
+    ctx.check("R1", mr, M.has(mr.node, "data = data + '\\x00'"), "sentinel-appended", "the dump is terminated by the NUL sentinel the scanners rely on")
     ctx.floor("R1", 4)
 
     # ---- R2 return-position contract ---------------------------------------------------------------------
+    # (walk_dollar_expansion has no locals: buff, pos, end, endchar, disable_quote are its parameters)
     wd = P.func(MOD, "walk_dollar_expansion")
     body = wd.node.body
-    brace_if = [n for n in body if isinstance(n, ast.If) and A.unparse(n.test) == "buff[pos] != '{'"]
+    brace_if = [n for n in body if is_stmt(n, "if buff[pos] != '{':\n    ...")]
     ctx.require(len(brace_if) == 1, "walk_dollar_expansion: the non-brace arm not found")
-    tail = body[body.index(brace_if[0]) + 1:]
+    tail = eff(body[body.index(brace_if[0]) + 1:])
     loop = [n for n in tail if isinstance(n, ast.While)]
-    ctx.require(len(loop) == 1 and "buff[pos] != '}'" in A.unparse(loop[0].test), "walk_dollar_expansion: closing-brace scan not found")
+    ctx.require(len(loop) == 1 and M.has(loop[0].test, "buff[pos] != '}'"), "walk_dollar_expansion: closing-brace scan not found")
     n_ret = 0
     for st in tail:
         for r in [x for x in A.walk(st) if isinstance(x, ast.Return)]:
             n_ret += 1
             if st is tail[-1] and isinstance(st, ast.Return):
-                ctx.check("R2", wd, A.unparse(r.value) == "pos + 1" and tail[-2] is loop[0], "return-after-brace-scan", "the ${...} arm returns pos + 1 right after the scan stopped on '}'")
+                # the last effective statement of the arm, and the scan loop is the effective statement before it
+                ctx.check("R2", wd, is_stmt(r, "return pos + 1") and len(tail) >= 2 and tail[-2] is loop[0], "return-after-brace-scan", "the ${...} arm returns pos + 1 right after the scan stopped on '}'")
                 continue
             conds = [p.test for p in A.parents(r) if isinstance(p, ast.If)]
             facts = []
@@ -105,21 +118,22 @@ def run(ctx):
                 flat.extend(c.values if isinstance(c, ast.BoolOp) and isinstance(c.op, ast.And) else [c])
             for c in flat:
                 if isinstance(c, ast.Compare) and isinstance(c.ops[0], ast.Eq) and isinstance(c.comparators[0], ast.Constant) and isinstance(c.comparators[0].value, str):
-                    if A.unparse(c.left) == "buff[pos]":
+                    if M.pat("buff[pos]").matches(c.left):
                         facts.append(c.comparators[0].value)
-                    elif A.unparse(c.left) == "pos":
+                    elif M.pat("pos").matches(c.left):
                         dead = True  # an index compared with a character: never true
             if dead:
                 ctx.ob("R2", wd, f"`if {A.unparse(conds[0])}` compares the index with a character: the shortcut is dead code (the general scan handles ${{$}})", node=r)
                 continue
-            ok = not (A.unparse(r.value) == "pos + 1" and facts and facts[-1] != "}")
+            ok = not (is_stmt(r, "return pos + 1") and facts and facts[-1] != "}")
             facts = facts or ["?"]
             ctx.check("R2", wd, ok, f"shortcut-return-past-brace:{facts[-1] if facts else ''}", f"shortcut `return {A.unparse(r.value)}` lands after the closing brace",
                       f"walk_dollar_expansion returns `pos + 1` where buff[pos] == {facts[-1]!r}: that is the index OF the closing brace of `${{{facts[-1]}}}`, not the position after it — the brace is handed to the caller as free-standing and closes the enclosing {{ }} group / function early (stray bytes after filtering)", node=r)
     ctx.check("R2", wd, n_ret >= 1, f"brace-arm-returns:{n_ret}", f"{n_ret} return(s) of the ${{...}} arm inspected")
-    first = [n for n in body if isinstance(n, ast.If)][:2]
-    ctx.check("R2", wd, A.unparse(first[0]).startswith("if buff[pos] == '(':\n    return process_scope(None, buff, pos + 1, None, None, ')') + 1"), "subshell-arm", "$( ) is scanned as a nested scope and returns past ')'")
-    ctx.check("R2", wd, "walk_statement_dollared_quote_parsing(buff, pos + 1, \"'\") + 1" in A.unparse(first[1]) and "not disable_quote" in A.unparse(first[1].test), "ansi-quote-arm", "$'..' is scanned by the ANSI-C quote scanner (not inside double quotes) and returns past the quote")
+    # the two arms dispatched before `pos` is moved past the '{' (top-level statements ahead of the non-brace arm)
+    head = [n for n in body if n.lineno < brace_if[0].lineno]
+    ctx.check("R2", wd, any(is_stmt(n, "if buff[pos] == '(':\n    return process_scope(None, buff, pos + 1, None, None, ')') + 1") for n in head), "subshell-arm", "$( ) is scanned as a nested scope and returns past ')'")
+    ctx.check("R2", wd, any(is_stmt(n, "if buff[pos] == \"'\" and (not disable_quote):\n    return walk_statement_dollared_quote_parsing(buff, pos + 1, \"'\") + 1") for n in head), "ansi-quote-arm", "$'..' is scanned by the ANSI-C quote scanner (not inside double quotes) and returns past the quote")
     ctx.floor("R2", 4)
 
     # ---- R3 escape handling -------------------------------------------------------------------------------
@@ -137,47 +151,77 @@ def run(ctx):
             continue
         lp = loops[0]
         arms = [n for n in A.walk(lp) if isinstance(n, ast.If) and isinstance(n.test, ast.Compare) and any(isinstance(c, ast.Constant) and c.value == "\\" for c in n.test.comparators)]
-        ok = len(arms) == 1 and [A.unparse(s) for s in arms[0].body] == ["pos += 1"] and A.unparse(lp.body[-1]) == "pos += 1"
+        # the backslash arm does nothing but step once, and the loop body ends with the common step: two characters consumed
+        lbody = eff(lp.body)
+        ok = len(arms) == 1 and len(eff(arms[0].body)) == 1 and is_stmt(eff(arms[0].body)[0], "pos += 1") and bool(lbody) and is_stmt(lbody[-1], "pos += 1")
         ctx.check("R3", f, ok, f"backslash-consumes-next:{name}", f"{name}: a backslash consumes the following character (escapes are taken pairwise)",
                   f"{name} does not consume backslash escapes pairwise", node=lp)
     dq = P.func(MOD, "walk_statement_dollared_quote_parsing")
     lp = [n for n in dq.node.body if isinstance(n, ast.While)]
     if lp:
-        first_if = lp[0].body[0]
-        ctx.check("R3", dq, isinstance(first_if, ast.If) and A.unparse(first_if.test) == "buff[pos] == endchar" and A.unparse(first_if.body[0]) == "return pos", "ansi-quote-ends-at-unescaped-quote", "the ANSI-C quote ends at the first quote not consumed by an escape")
+        lbody = eff(lp[0].body)
+        first_if = lbody[0] if lbody else None
+        ctx.check("R3", dq, isinstance(first_if, ast.If) and M.pat("buff[pos] == endchar").matches(first_if.test) is not None and bool(eff(first_if.body)) and is_stmt(eff(first_if.body)[0], "return pos"), "ansi-quote-ends-at-unescaped-quote", "the ANSI-C quote ends at the first quote not consumed by an escape")
     np_ = P.func(MOD, "walk_statement_no_parsing")
-    ctx.check("R3", np_, "buff.find(endchar, pos)" in A.unparse(np_.node), "single-quote-raw", "single quotes end at the next quote, no escapes")
+    ctx.check("R3", np_, M.has(np_.node, "buff.find(endchar, pos)"), "single-quote-raw", "single quotes end at the next quote, no escapes")
     ctx.floor("R3", 5)
 
     # ---- R4 output windows ----------------------------------------------------------------------------------
     ps = P.func(MOD, "process_scope")
-    t = A.unparse(ps.node)
-    cuts = [st for tg, v, st in A.assignments(ps.node, "window_end") if A.unparse(v) == "com_start"]
-    conds = sorted(A.unparse(next(p for p in A.parents(st) if isinstance(p, ast.If)).test) for st in cuts)
-    ctx.check("R4", ps, conds == ["func_match is not None and func_match(func_name)", "var_match is not None and var_match(var_name)"], f"cut-at-command-start:{len(cuts)}", "a matching function / variable closes the output window at the start of its command",
-              f"the output window is cut under {conds}", node=ps.node)
-    ctx.check("R4", ps, "com_start = pos" in t and "out.write(buff[window_start:window_end].encode('utf-8'))" in t and "window_start = pos" in t, "window-flush", "the window before a filtered definition is flushed and a new one starts after it")
-    ctx.check("R4", ps, "limit = end - 1 if buff[-1:] == endchar else end" in t and "window_end = min(window_end, limit)" in t, "final-write-bounded", "the final write stops before the terminator of the scope (no stray NUL)",
+    mains = [n for n in ps.node.body if isinstance(n, ast.While)]
+    ctx.require(len(mains) == 1, "process_scope: the command loop not found")
+    main = mains[0]
+    # locals are found by their role: the window bounds are what the writes slice the buffer with,
+    # the command start is what is taken from pos at the top of every iteration, right after the flush
+    writes = M.find(ps.node, "out.write(buff[$ws:$we].encode('utf-8'))")
+    E = dict(writes[0].env) if writes else {}
+    same_window = bool(writes) and all(w.env == E for w in writes)
+    m_end = M.one(ps.node.body, "$end = len(buff)")
+    if m_end:
+        E["end"] = m_end["end"]
+    flush = M.one(main.body, "if $we is not None:\n    if out is not None:\n        out.write(buff[$ws:$we].encode('utf-8'))\n    $ws = pos\n    $we = None\n$cs = pos", E) if same_window else None
+    flush = flush if flush is not None and flush.node in main.body else None
+    if flush:
+        E["cs"] = flush["cs"]
+    cuts = [m.node for m in M.find(main, "$we = $cs", E)] if flush else []
+    conds = sorted(A.unparse(next((p for p in A.parents(st) if isinstance(p, ast.If)), main).test) for st in cuts)
+    func_cut = flush is not None and M.has(main.body, "$fa, $fb, $fp = is_function(buff, pos)\nif $fp is not None:\n    $fn = buff[$fa:$fb]\n    if func_match is not None and func_match($fn):\n        $we = $cs", E)
+    var_cut = flush is not None and M.has(main.body, "$va, $vb, $vp = is_envvar(buff, pos)\nif $vp is None:\n    ...\nelse:\n    $vn = buff[$va:$vb]\n    if var_match is not None and var_match($vn):\n        $we = $cs", E)
+    # inside the loop the window end is only ever reset or put at the command start
+    other = [st for tg, v, st in A.assignments(main, E.get("we", "")) if not (A.is_const(v, None) or (isinstance(v, ast.Name) and v.id == E.get("cs")))]
+    ctx.check("R4", ps, len(cuts) == 2 and func_cut and var_cut and not other, f"cut-at-command-start:{len(cuts)}", "a matching function / variable closes the output window at the start of its command",
+              f"the output window is cut under {conds}" + (f"; and moved by `{A.unparse(other[0])}`" if other else ""), node=ps.node)
+    ctx.check("R4", ps, flush is not None, "window-flush", "the window before a filtered definition is flushed and a new one starts after it")
+    fin = "if out is not None:\n    $limit = $end - 1 if buff[-1:] == endchar else $end\n    $we = min($we, $limit)\n    out.write(buff[$ws:$we].encode('utf-8'))"
+    ctx.check("R4", ps, same_window and any(is_stmt(st, fin, E) for st in ps.node.body if st.lineno > main.lineno), "final-write-bounded", "the final write stops before the terminator of the scope (no stray NUL)",
               "process_scope's final write is no longer bounded before the scope terminator: the NUL sentinel (or bytes past it) reach the output", node=ps.node)
     rec = [c for c in A.calls(ps.node) if dotted(c.func) == "process_scope"]
-    ctx.check("R4", ps, len(rec) == 1 and A.unparse(rec[0].args[0]) == "None" and A.unparse(rec[0].args[5]) == "'}'", "function-body-scope", "a function body is scanned as a nested scope terminated by '}', writing nothing itself")
-    ctx.check("R4", ps, "func_callback(func_level, func_name, buff[new_start:new_p])" in t and "envvar_callback(var_name)" in t, "callbacks", "callbacks see every function (with its text) and variable name")
+    ctx.check("R4", ps, len(rec) == 1 and M.pat("process_scope(None, buff, $_, None, None, '}', ...)").matches(rec[0]) is not None, "function-body-scope", "a function body is scanned as a nested scope terminated by '}', writing nothing itself")
+    fsite = M.one(main.body, "$fa, $fb, $fp = is_function(buff, pos)\nif $fp is not None:\n    $fn = buff[$fa:$fb]\n    $fp = process_scope(None, buff, $fp, ...)")
+    vsite = M.one(main.body, "$va, $vb, $vp = is_envvar(buff, pos)\nif $vp is None:\n    ...\nelse:\n    $vn = buff[$va:$vb]")
+    ctx.check("R4", ps, fsite is not None and vsite is not None and M.has(main, "func_callback(func_level, $fn, buff[$fa:$fp])", fsite.env) and M.has(main, "envvar_callback($vn)", vsite.env), "callbacks", "callbacks see every function (with its text) and variable name")
     rn = P.func(MOD, "run")
-    ctx.check("R4", rn, "'\\x00'" in A.unparse(rn.node), "outer-scope-ends-at-sentinel", "the outermost scope ends at the NUL sentinel")
+    ctx.check("R4", rn, M.has(rn.node, "process_scope(out, file_buff, 0, var_match, func_match, '\\x00', ...)"), "outer-scope-ends-at-sentinel", "the outermost scope ends at the NUL sentinel")
     ctx.floor("R4", 6)
 
     # ---- R5 value dispatch (assignment right-hand sides) --------------------------------------------------------
-    loops = [n for n in A.walk(ps.node) if isinstance(n, ast.While) and "buff[pos] != ';'" in A.unparse(n.test)]
+    loops = [n for n in A.walk(main) if isinstance(n, ast.While) and n is not main and M.has(n.test, "buff[pos] != ';'")]
     ctx.require(len(loops) == 1, "process_scope: assignment value scan not found")
-    arms = {}
-    n = loops[0].body[0]
+    E5 = {"end": E["end"]} if "end" in E else {}
+    m_sp = M.one(ps.node.body, "$isspace = str.isspace")
+    if m_sp:
+        E5["isspace"] = m_sp["isspace"]
+    arms = []
+    lbody = eff(loops[0].body)
+    n = lbody[0] if lbody else None
     while isinstance(n, ast.If):
-        arms[A.unparse(n.test)] = A.unparse(ast.Module(body=n.body, type_ignores=[]))
+        arms.append(n)
         n = n.orelse[0] if len(n.orelse) == 1 and isinstance(n.orelse[0], ast.If) else None
-    want = {"buff[pos] == \"'\"": "walk_statement_no_parsing(buff, pos + 1, \"'\") + 1", "buff[pos] in '\"`'": "walk_command_escaped_parsing(buff, pos + 1, buff[pos]) + 1", "buff[pos] == '('": "walk_command_escaped_parsing(buff, pos + 1, ')') + 1", "buff[pos] == '$'": "walk_dollar_expansion(buff, pos, end, endchar)"}
+    want = {"buff[pos] == \"'\"": "walk_statement_no_parsing(buff, pos + 1, \"'\") + 1", "buff[pos] in '\"`'": "walk_command_escaped_parsing(buff, pos + 1, buff[pos]) + 1", "buff[pos] == '('": "walk_command_escaped_parsing(buff, pos + 1, ')') + 1", "buff[pos] == '$'": "walk_dollar_expansion(buff, pos, $end, endchar)"}
     for k, v in want.items():
-        ctx.check("R5", ps, k in arms and v in arms[k], f"value-arm:{k[-6:]}", f"value scan: `{k}` -> {v.split('(')[0]}", f"the assignment value scan lost / changed its `{k}` arm", node=loops[0])
-    ctx.check("R5", ps, A.unparse(loops[0].test) == "pos < end and (not isspace(buff[pos])) and (buff[pos] != ';')", "value-ends", "a value ends at unquoted whitespace or ';'")
+        arm = [a for a in arms if M.pat(k).matches(a.test) is not None]
+        ctx.check("R5", ps, len(arm) == 1 and M.has(arm[0].body, f"pos = {v}", E5), f"value-arm:{k[-6:]}", f"value scan: `{k}` -> {v.split('(')[0]}", f"the assignment value scan lost / changed its `{k}` arm", node=loops[0])
+    ctx.check("R5", ps, m_sp is not None and is_stmt(loops[0], "while pos < $end and (not $isspace(buff[pos])) and (buff[pos] != ';'):\n    ...", E5), "value-ends", "a value ends at unquoted whitespace or ';'")
     ctx.floor("R5", 5)
 
 
